@@ -80,7 +80,7 @@ def programs(shard, seed):
     for p in _programs(shard, seed):
         yield p
         lo = p.get("min_k", 1)
-        if p["max_k"] > lo and "force_k" not in p:
+        if p["max_k"] > lo and "force_k" not in p and not p.get("critical"):
             for k in range(lo, p["max_k"] + 1):
                 q = dict(p)
                 q["force_k"] = k
@@ -121,7 +121,7 @@ def _programs(shard, seed):
         X = [list(pts[i]) for i in seq]
         if lk == "2d":
             # the same data in other memory layouts, and after an interrupted earlier call
-            for extra in ({"layout": "F"}, {"layout": "T"}, {"crash": True}):
+            for extra in ({"layout": "F"}, {"layout": "T"}, {"layout": "R"}, {"layout": "N"}, {"crash": True}):
                 for model in ("UnsupervisedOPF", "KNNSupervisedOPF"):
                     lab = [i % 2 for i in range(n)]
                     p = {"model": model, "mode": "features", "X": X, "metric": metric, "labels": lab,
@@ -142,6 +142,10 @@ def _programs(shard, seed):
                 yield {"model": "KNNSupervisedOPF", "mode": "features", "X": X, "metric": metric,
                        "labels": lab, "max_k": mx, "val": {"X": X, "labels": lab},
                        "queries": qs, "pad": pad}
+                if lk == "1d" and n == 4 and mx >= 2 and metric == "euclidean":
+                    yield {"model": "KNNSupervisedOPF", "mode": "features", "X": X, "metric": metric,
+                           "labels": lab, "max_k": mx, "force_k": mx, "val": {"X": X, "labels": lab},
+                           "queries": [], "pad": pad, "positions": [0], "critical": True}
 
 
 def acceptable(m, q, unsup):
@@ -166,7 +170,7 @@ def acceptable(m, q, unsup):
         S = 0.0
         for dj in sorted(d[j] for j in nb):
             S += math.exp(-dj / const)
-        for dv in (k, k + 1):
+        for dv in (k,):      # mean over the k distances, as the statement says (DESIGN.md 9.9)
             dens = (MAXD - 1) * (S / dv - mn) / (mxd - mn + EPS) + 1
             vals = {j: min(float(N[j].cost), dens) for j in nb}
             top = max(vals.values())
@@ -175,6 +179,35 @@ def acceptable(m, q, unsup):
                 if vals[j] >= top - tol:
                     acc.add((int(N[j].predicted_label), int(N[j].cluster_label) if unsup else 0))
     return acc, nchoices
+
+
+def critical_points(m, unsup, lo=-1.0, hi=4.5, step=0.125):
+    """1-D only: positions where the set of outcomes allowed by the reference changes."""
+    out = []
+    xs = []
+    x = lo
+    while x <= hi:
+        xs.append(x)
+        x += step
+    prev_x, prev = xs[0], frozenset(acceptable(m, [xs[0]], unsup)[0])
+    for x in xs[1:]:
+        cur = frozenset(acceptable(m, [x], unsup)[0])
+        if cur != prev:
+            a, b, fa = prev_x, x, prev
+            for _ in range(60):
+                mid = (a + b) / 2.0
+                if mid == a or mid == b:
+                    break
+                fm = frozenset(acceptable(m, [mid], unsup)[0])
+                if fm == fa:
+                    a = mid
+                else:
+                    b = mid
+            for d in (1e-7, 1e-5, 1e-3, 1e-2):
+                out.append(a - d)
+                out.append(b + d)
+        prev_x, prev = x, cur
+    return out
 
 
 def run_case(prog, res=None):
@@ -191,6 +224,11 @@ def run_case(prog, res=None):
         return viol(prog, "fit raised %r" % (ex,), "fit raised %s" % type(ex).__name__)
     n = len(prog["labels"])
     positions = prog.get("positions", list(range(n + 1)))
+    if prog.get("critical"):
+        # queries right at the places where the exhaustive rule changes its answer (found by bisection
+        # on the reference): there the query density crosses a neighbour's cost or a neighbour changes
+        prog = dict(prog)
+        prog["queries"] = list(prog["queries"]) + [[x] for x in critical_points(m, unsup)]
     if prog.get("crash"):
         # an earlier predict call, interrupted at each of its metric calls, precedes the call under test
         from mc.faults import FaultyFn
